@@ -5,6 +5,7 @@
 #include <cstdio>
 #include <cstring>
 #include <set>
+#include <unistd.h>
 #include <stdexcept>
 
 using namespace sim;
@@ -304,7 +305,12 @@ World::World(Scenario const& s) : scn(s)
 			cfg->dns[d[1]] = e;
 		}
 		else if (d[0] == "node") node_decls.push_back(d);
-		else if (d[0] == "pcap" && d.size() >= 2) { pcap = true; pcap_file = d[1]; }
+		else if (d[0] == "pcap")
+		{
+			pcap = true;
+			pcap_file = g_trace_path + ".pcap." + std::to_string(long(getpid()));
+			pcap_path = pcap_file;
+		}
 	}
 	sim.reset(new simulation(*cfg));
 	if (pcap) sim->log_pcap(pcap_file.c_str());
@@ -362,13 +368,13 @@ void World::run_ctx(std::string const& ctx)
 }
 
 void World::on_handler(std::string const& h, boost::system::error_code const& ec
-	, std::string const& extra)
+	, std::string const& extra, bool run_ops)
 {
 	emit("H %s t=%lld ec=%s%s%s incall=%d", h.c_str(), (long long)now_ns(), ec_name(ec)
 		, extra.empty() ? "" : " ", extra.c_str(), api_depth > 0 ? 1 : 0);
 	// the wait's slot is known to be free again once its handler has run
 	for (auto& tp_ : timer_pending) if (tp_.second == h) { tp_.second.clear(); }
-	run_ctx(h);
+	if (run_ops) run_ctx(h);
 }
 
 std::function<void(boost::system::error_code const&)> World::make_h(std::string h)
@@ -400,10 +406,19 @@ bool World::op_kernel(std::string const& ctx, toks const& op)
 	if (o == "run")
 	{
 		emit("C %s run", c);
-		std::size_t n = sim->run();
-		emit("R %s run => n=%zu t=%lld", c, n, (long long)now_ns());
+		try
+		{
+			std::size_t n = sim->run();
+			emit("R %s run => n=%zu t=%lld", c, n, (long long)now_ns());
+		}
+		catch (scenario_exception const&)
+		{
+			// a user handler threw: run() cancelled what is pending, stopped and rethrew
+			emit("R %s run => throw t=%lld", c, (long long)now_ns());
+		}
 		return true;
 	}
+	if (o == "throw") { emit("C %s throw", c); throw scenario_exception(); }
 	if (o == "stop") { sim->stop(); emit("C %s stop => -", c); return true; }
 	if (o == "restart") { sim->restart(); emit("C %s restart => -", c); return true; }
 	if (o == "now") { emit("C %s now => %lld", c, (long long)now_ns()); return true; }
@@ -503,11 +518,28 @@ int World::execute()
 
 World::~World()
 {
+	g_muted = true;
 	net.reset();
 	timers.clear();
 	nodes.clear();
 	sim.reset();
 	cfg.reset();
+	g_muted = false;
+	if (!pcap_path.empty())
+	{
+		// the capture is complete once the simulation (and its pcap object) is gone
+		std::FILE* f = std::fopen(pcap_path.c_str(), "rb");
+		std::vector<unsigned char> bytes;
+		if (f)
+		{
+			unsigned char buf[65536];
+			std::size_t n;
+			while ((n = std::fread(buf, 1, sizeof(buf), f)) > 0) bytes.insert(bytes.end(), buf, buf + n);
+			std::fclose(f);
+		}
+		std::remove(pcap_path.c_str());
+		emit("F pcap %s", hex(bytes.data(), bytes.size()).c_str());
+	}
 	sim::verif::step_hook = nullptr;
 	g_world = nullptr;
 }
